@@ -307,9 +307,9 @@ func Solve(script string, file string, timeoutS int, all bool, noCVC5 bool) Solv
 	ctx, cancel := context.WithCancel(context.Background())
 	defer cancel()
 	type r struct {
-		sp     solverSpec
-		st, o  string
-		dt     float64
+		sp    solverSpec
+		st, o string
+		dt    float64
 	}
 	var specs []solverSpec
 	for _, sp := range solverSpecs {
